@@ -65,6 +65,10 @@ def new_constants(prop, repo):
     for f in source_files(repo):
         if os.path.dirname(f) in dirs:
             out |= set(constants(os.path.join(repo, f))) - set(want.get(f, []))
+    # a small new constant may bound a depth or a bit width: its powers of two are sizes worth straddling
+    for c in sorted(out):
+        if 10 <= c <= 18:
+            out |= {1 << c, 1 << (c + 1)}
     return sorted(out)
 
 
